@@ -14,6 +14,7 @@ import (
 	"os"
 	"path/filepath"
 	"strings"
+	"sync"
 	"testing"
 
 	"github.com/AdguardTeam/AdGuardHome/internal/client"
@@ -138,6 +139,171 @@ func TestVFC14ConfigWrite(t *testing.T) {
 				t.Fatalf("a concurrent reader saw %s (%d times), which is none of the saved versions", k, c)
 			}
 			vfC14.ClassN("reader_observations", c)
+		}
+	})
+}
+
+// TestVFC14ConfigConcurrent: overlapping saves of the configuration (two
+// administrators, or an administrator and a background worker that saves).
+// Every saver sets a field at the start of the file and one at its end to the
+// same revision mark before it saves; whatever the interleaving, every state
+// of the file a reader can see -- and the final one -- must parse and carry
+// one mark at both ends, the name must only ever be replaced by renames, and
+// no temporary file may stay behind.
+func TestVFC14ConfigConcurrent(t *testing.T) {
+	vfkit.Begin(t)
+	a := vfAssemble()
+	if a.err != nil {
+		t.Fatalf("assembly failed: %v", a.err)
+	}
+	confPath := configFilePath()
+	dir, name := filepath.Dir(confPath), filepath.Base(confPath)
+
+	marks := func(b []byte) (early, late string, err error) {
+		var doc struct {
+			Proxy string `yaml:"http_proxy"`
+			Log   struct {
+				File string `yaml:"file"`
+			} `yaml:"log"`
+			Version int `yaml:"schema_version"`
+		}
+		err = yaml.Unmarshal(b, &doc)
+		if err == nil && doc.Version == 0 {
+			err = fmt.Errorf("no schema_version at the end of the document")
+		}
+
+		return doc.Proxy, doc.Log.File, err
+	}
+
+	rapid.Check(t, func(t *rapid.T) {
+		nWriters := rapid.IntRange(2, 4).Draw(t, "n_writers")
+		nSaves := rapid.IntRange(2, 8).Draw(t, "saves_per_writer")
+		pad := rapid.SampledFrom([]int{0, 2000, 200000}).Draw(t, "pad")
+		config.Lock()
+		config.Language = strings.Repeat("x", pad)
+		config.ProxyURL, config.Log.File = "rev-0-0", "rev-0-0"
+		config.Unlock()
+		if werr := config.write(globalContext.tls); werr != nil {
+			t.Fatalf("VERIF-INCONCLUSIVE first save: %v", werr)
+		}
+
+		w, err := vfkit.NewWatcher(dir, os.TempDir())
+		if err != nil {
+			t.Fatalf("VERIF-INCONCLUSIVE watcher: %v", err)
+		}
+		defer w.Close()
+		tmpBefore := vfkit.DirListing(os.TempDir())
+		dirBefore := vfkit.DirListing(dir)
+
+		// a reader that judges what it sees
+		stop := make(chan struct{})
+		var rdWG sync.WaitGroup
+		var rdMu sync.Mutex
+		var bad []string
+		reads := 0
+		rdWG.Add(1)
+		go func() {
+			defer rdWG.Done()
+			for {
+				select {
+				case <-stop:
+					return
+				default:
+				}
+				b, rerr := os.ReadFile(confPath)
+				if rerr != nil {
+					rdMu.Lock()
+					bad = append(bad, "read: "+rerr.Error())
+					rdMu.Unlock()
+
+					continue
+				}
+				early, late, perr := marks(b)
+				rdMu.Lock()
+				reads++
+				if perr != nil {
+					bad = append(bad, fmt.Sprintf("a file of %d bytes that does not parse: %v", len(b), perr))
+				} else if early != late {
+					bad = append(bad, fmt.Sprintf("a mix of two versions: http_proxy %q at the start, log.file %q at the end", early, late))
+				}
+				rdMu.Unlock()
+			}
+		}()
+
+		var wg sync.WaitGroup
+		start := make(chan struct{})
+		var errMu sync.Mutex
+		var saveErrs []string
+		for wi := 1; wi <= nWriters; wi++ {
+			wg.Add(1)
+			go func(wi int) {
+				defer wg.Done()
+				<-start
+				for j := 1; j <= nSaves; j++ {
+					mark := fmt.Sprintf("rev-%d-%d", wi, j)
+					config.Lock()
+					config.ProxyURL, config.Log.File = mark, mark
+					config.Unlock()
+					if werr := config.write(globalContext.tls); werr != nil {
+						errMu.Lock()
+						saveErrs = append(saveErrs, werr.Error())
+						errMu.Unlock()
+					}
+				}
+			}(wi)
+		}
+		close(start)
+		wg.Wait()
+		close(stop)
+		rdWG.Wait()
+
+		evs, derr := w.Drain()
+		if derr != nil {
+			t.Fatalf("VERIF-INCONCLUSIVE inotify: %v", derr)
+		}
+		_, cp, aerr := vfkit.CheckAtomicHistory(evs, dir, name)
+		if aerr != nil {
+			t.Fatalf("overlapping configuration saves (%d writers x %d): %v", nWriters, nSaves, aerr)
+		}
+		if len(bad) > 0 {
+			t.Fatalf("overlapping configuration saves (%d writers x %d): a concurrent reader saw %s (%d such reads of %d); save errors: %v",
+				nWriters, nSaves, bad[0], len(bad), reads, saveErrs)
+		}
+		b, rerr := os.ReadFile(confPath)
+		if rerr != nil {
+			t.Fatalf("after the saves: %v", rerr)
+		}
+		early, late, perr := marks(b)
+		if perr != nil || early != late {
+			t.Fatalf("overlapping configuration saves (%d writers x %d): the file ends as http_proxy %q / log.file %q (parse error %v); save errors: %v",
+				nWriters, nSaves, early, late, perr, saveErrs)
+		}
+		allowed := map[string]bool{name: true}
+		for _, n := range dirBefore {
+			allowed[n] = true
+		}
+		for _, n := range vfkit.DirListing(dir) {
+			if !allowed[n] {
+				t.Fatalf("overlapping configuration saves: leftover file %q next to the configuration", n)
+			}
+		}
+		tb := map[string]bool{}
+		for _, n := range tmpBefore {
+			tb[n] = true
+		}
+		for _, n := range vfkit.DirListing(os.TempDir()) {
+			if !tb[n] {
+				t.Fatalf("overlapping configuration saves: leftover file %q in the staging directory", n)
+			}
+		}
+
+		vfC14.Eval()
+		vfC14.ClassN("crash_points", cp)
+		vfC14.Class("config:overlapping_saves")
+		vfC14.ClassN("reader_observations", reads)
+		vfC14.Nontrivial(fmt.Sprintf("config_concurrent|%d|%d|%d|%d", nWriters, nSaves, pad, len(evs)))
+		if vfC14.WantSample("config_concurrent") {
+			vfC14.Sample("config_concurrent", map[string]any{"writers": nWriters, "saves_each": nSaves, "bytes": len(b), "reads_judged": reads, "crash_points": cp})
 		}
 	})
 }
